@@ -26,7 +26,7 @@ def run(res, replay=None):
                               end_time='never', size_range=(-3, 3) if moderate else (-9, 20))
             m = s['model']
             if m['kind'] != 'kingman':
-                m['scale_time'] = True
+                m['scale_time'] = rng.random() < 0.6
             j = rng.choice([-6, -3, -1, 1, 2, 5, 9] if not moderate else [-2, -1, 1, 2])
             # keep every size within [1e-3, 1e9] after rescaling
             c = 2.0 ** j
